@@ -38,6 +38,7 @@ var Properties = map[string]func(*Ctx){
 	"C13": C13,
 	"C14": C14,
 	"C18": C18,
+	"C20": C20,
 }
 
 func C14(c *Ctx) {
@@ -250,4 +251,9 @@ func C18(c *Ctx) {
 	R19OpTable(c)
 	R19Climb(c)
 	R19Eval(c)
+}
+
+func C20(c *Ctx) {
+	R20FormatEffects(c)
+	R20Serialise(c)
 }
